@@ -1,6 +1,9 @@
 package schema
 
-import "regexp"
+import (
+	"fmt"
+	"regexp"
+)
 
 var unitsProperty = NewPropertySchema(
 	NewRefSchema("Units", nil),
@@ -1321,7 +1324,9 @@ func UnserializeScope(data any) (*ScopeSchema, error) {
 	scope := s.(*ScopeSchema)
 	// Link the references, as UnserializeSchema does for the scopes it contains and as NewScopeSchema does for
 	// constructed scopes; an unlinked scope panics on first use. Linking again later is harmless.
-	scope.ApplySelf()
+	if err := finalizeLoadedScope(scope); err != nil {
+		return nil, err
+	}
 	return scope, nil
 }
 
@@ -1332,6 +1337,107 @@ func UnserializeSchema(data any) (*SchemaSchema, error) {
 		return nil, err
 	}
 	result := s.(*SchemaSchema)
-	result.applyNamespace()
+	if err := finalizeLoadedSchema(result); err != nil {
+		return nil, err
+	}
 	return result, nil
+}
+
+// finalizeLoadedSchema is finalizeLoadedScope for all scopes of a schema.
+func finalizeLoadedSchema(schema *SchemaSchema) (err error) {
+	defer func() {
+		if r := recover(); r != nil {
+			err = &ConstraintError{
+				Message: fmt.Sprintf("Invalid schema definition: %v", r),
+			}
+		}
+	}()
+	schema.applyNamespace()
+	visited := map[Type]struct{}{}
+	for stepID, step := range schema.StepsValue {
+		scopes := map[string]Scope{"input": step.InputValue}
+		for id, output := range step.OutputsValue {
+			scopes["output "+id] = output.SchemaValue
+		}
+		for id, signal := range step.SignalHandlersValue {
+			scopes["signal handler "+id] = signal.DataSchemaValue
+		}
+		for id, signal := range step.SignalEmittersValue {
+			scopes["signal emitter "+id] = signal.DataSchemaValue
+		}
+		for name, scope := range scopes {
+			if err := verifyLoadedType(scope, visited); err != nil {
+				return ConstraintErrorAddPathSegment(ConstraintErrorAddPathSegment(err, name), stepID)
+			}
+		}
+	}
+	return nil
+}
+
+// finalizeLoadedScope links a scope that was created from data and verifies that it can be used. The constructors
+// and the linking step treat a malformed definition as a programming error and panic; for a definition that
+// arrived as data (for example in the hello message of a plugin) that must be an error instead, and problems that
+// would only surface as a panic on first use (a missing root object, an unparsable default value, a reference
+// that cannot be resolved) are looked for right away.
+func finalizeLoadedScope(scope *ScopeSchema) (err error) {
+	defer func() {
+		if r := recover(); r != nil {
+			err = &ConstraintError{
+				Message: fmt.Sprintf("Invalid schema definition: %v", r),
+			}
+		}
+	}()
+	scope.ApplySelf()
+	return verifyLoadedType(scope, map[Type]struct{}{})
+}
+
+func verifyLoadedType(t Type, visited map[Type]struct{}) error {
+	if _, ok := visited[t]; ok {
+		return nil
+	}
+	switch schemaType := t.(type) {
+	case *ScopeSchema:
+		visited[t] = struct{}{}
+		schemaType.RootObject() // panics if the root object is missing or mislabeled
+		for _, object := range schemaType.ObjectsValue {
+			if err := verifyLoadedType(object, visited); err != nil {
+				return err
+			}
+		}
+	case *ObjectSchema:
+		visited[t] = struct{}{}
+		schemaType.GetDefaults() // panics if a default value cannot be decoded
+		for propertyID, property := range schemaType.PropertiesValue {
+			if property == nil || property.TypeValue == nil {
+				return &ConstraintError{Message: "Property without a type", Path: []string{schemaType.IDValue, propertyID}}
+			}
+			if err := verifyLoadedType(property.TypeValue, visited); err != nil {
+				return err
+			}
+		}
+	case *ListSchema:
+		return verifyLoadedType(schemaType.ItemsValue, visited)
+	case *MapSchema[Type, Type]:
+		if err := verifyLoadedType(schemaType.KeysValue, visited); err != nil {
+			return err
+		}
+		return verifyLoadedType(schemaType.ValuesValue, visited)
+	case *OneOfSchema[int64]:
+		for _, member := range schemaType.TypesValue {
+			if err := verifyLoadedType(member, visited); err != nil {
+				return err
+			}
+		}
+	case *OneOfSchema[string]:
+		for _, member := range schemaType.TypesValue {
+			if err := verifyLoadedType(member, visited); err != nil {
+				return err
+			}
+		}
+	case *RefSchema:
+		if !schemaType.ObjectReady() {
+			return schemaType.ValidateReferences()
+		}
+	}
+	return nil
 }
